@@ -607,3 +607,34 @@ func init() {
 		return msg, bad, nil
 	}
 }
+
+// ---------------------------------------------------------------- a bare ParserBuffer, initialised again
+
+// TestC20Buf: histories on a bare ParserBuffer in which Init is called again
+// on the used value (a buffer from a pool), mostly with a smaller geometry:
+// BufferConfig() has to be the defaults-completed configuration given, not
+// something derived from the array the value still holds.
+var propC20Buf = parserProp{
+	prop:   "C20",
+	maxBuf: 200,
+	opts: func(kind string) histOpts {
+		o := defaultHistOpts()
+		o.readAt, o.byteAt = 2, 2
+		o.resetDat = 2
+		return o
+	},
+	classify: func(x *parserExec) ([]string, bool) {
+		n := 0
+		for _, op := range x.log {
+			if op.Op == "reinit" {
+				n++
+			}
+		}
+		if n > 0 {
+			return []string{"parser-buffer-initialised-again"}, true
+		}
+		return nil, false
+	},
+}
+
+func TestC20Buf(t *testing.T) { propC20Buf.run(t, []string{"BUF"}) }
